@@ -283,6 +283,13 @@ class Ctx:
         )
 
     def finish(self, level="proof"):
+        # A broken proof obligation, translator or audit is always a violation (even when the
+        # property module did not turn it into one): the property is no longer shown to hold.
+        for o in self.obligations:
+            if not o.ok and o.kind in ("theorem", "translator", "audit"):
+                if not any((v.get("obligation") == o.name) or (v["key"] == "obligation:" + o.name) for v in self.violations):
+                    self.violation("obligation:" + o.name, "obligation no longer checks: %s (%s)" % (o.name, o.detail[:300]),
+                                   obligation=o.name, no_input=True, extra={"detail": o.detail})
         known = load_known(self.prop)
         exit_code = 0
         out_lines = []
